@@ -125,6 +125,40 @@ Definition sample_history : list op :=
    OSync 9; OSnapshot 2; OSnapRet 5; OCompact 2 None; OTxidRet 1 3; OL0Ret (Some 100); OStoreSnapRet 100;
    OSetRet false; OSync 10; OStoreSnapRet 100; OCompactDB 9 100 None 11].
 
+(** NON-MONOTONE snapshot ages: the NEWER snapshot (1..4) is older than the retention
+    threshold while the EARLIER one (1..2) is still recent, L0 has been trimmed behind L1, and
+    the snapshot pass runs with its cascade.  (The theorem quantifies over all stamps, so it
+    covers this; the example shows what the model does: the newest snapshot is the last one
+    listed and is spared, the floor is 0, nothing below L1 is cut, the plan ends at pos = 5.) *)
+Definition nonmonotone_history : list op :=
+  [OSync 1; OSync 2; OSnapshot 3; OSync 4; OCompact 1 None; OSync 5; OCompact 1 None; OSnapshot 6;
+   OSync 7; OCompact 1 None;
+   ORestamp 9 1 4 3;   (* newest snapshot: expired *)
+   ORestamp 9 1 2 9;   (* earlier snapshot: recent *)
+   OL0Ret (Some 100);  (* every L0 file is old: L0 trimmed to the newest *)
+   OStoreSnapRet 6].
+
+Example nonmonotone_history_ok :
+  hist_ok (init_state true 2) nonmonotone_history /\
+  let st := run (init_state true 2) nonmonotone_history in
+  st_pos st = 5 /\
+  map (fun f => (s_min f, s_max f)) (st_rep st 0) = [(5, 5)] /\
+  map (fun f => (s_min f, s_max f)) (st_rep st 1) = [(1, 3); (4, 4); (5, 5)] /\
+  map (fun f => (s_max f, s_created f)) (st_rep st SnapshotLevel) = [(2, 9); (4, 3)] /\
+  calc_restore_plan (listing_of (st_rep st)) 0 0 = POk [mkFile 9 1 4 3; mkFile 1 5 5 7].
+Proof. vm_compute. repeat split; discriminate. Qed.
+
+(** the same pattern with the earlier snapshot expired as well: only then is a snapshot
+    deleted, and the floor is the MaxTXID of the one listed just before the first kept *)
+Example nonmonotone_both_expired :
+  let st := run (init_state true 2)
+     [OSync 1; OSync 2; OSnapshot 3; OSync 4; OCompact 1 None; OSync 5; OCompact 1 None; OSnapshot 6;
+      OSync 7; OCompact 1 None; ORestamp 9 1 4 3; ORestamp 9 1 2 2; OL0Ret (Some 100); OStoreSnapRet 6] in
+  map (fun f => (s_min f, s_max f)) (st_rep st 1) = [(1, 3); (4, 4); (5, 5)] /\
+  map s_max (st_rep st SnapshotLevel) = [4] /\
+  calc_restore_plan (listing_of (st_rep st)) 0 0 = POk [mkFile 9 1 4 3; mkFile 1 5 5 7].
+Proof. vm_compute. repeat split. Qed.
+
 Example sample_history_ok : hist_ok (init_state true 2) sample_history.
 Proof. vm_compute. repeat split; discriminate. Qed.
 
